@@ -1141,10 +1141,26 @@ func c03ExpectedID(c *Ctx) {
 			entry = f.SSA
 		}
 	}
-	if entry == nil {
-		c.Unk("C03.V4-expected-id-present", "dagsync › peer-info entry test", token.NoPos, "function that strips IDs from addresses and rejects an empty ID not found")
+	makeSyncer := (*ssa.Function)(nil)
+	for _, f := range c.Funcs(dagsyncPkg) {
+		if len(c.Calls(f.SSA, Call("ipnisync.Sync).NewSyncer"))) > 0 {
+			makeSyncer = f.SSA
+		}
+	}
+	if makeSyncer == nil {
+		c.Unk("C03.V4-expected-id-present", "dagsync › sync-client factory", token.NoPos, "no function calls Sync.NewSyncer")
 		return
 	}
+	if entry == nil {
+		// no separate entry test: the same conditions are looked for where the sync client is built
+		c03ExpectedIDAtFactory(c)
+	} else {
+		c03ExpectedIDEntry(c, entry, makeSyncer)
+	}
+	c03ExpectedIDInFactory(c, makeSyncer)
+}
+
+func c03ExpectedIDEntry(c *Ctx, entry, makeSyncer *ssa.Function) {
 	for _, b := range entry.Blocks {
 		ret, ok := b.Instrs[len(b.Instrs)-1].(*ssa.Return)
 		if !ok || len(ret.Results) != 2 {
@@ -1162,16 +1178,6 @@ func c03ExpectedID(c *Ctx) {
 		c.OK("C03.V4-expected-id-present", c.short(entry.String())+" › keeps ID", entry.Pos(), "returns its parameter; the ID is only filled in when empty")
 	}
 	// V4.2: explicit entry points use its result on the nil-error edge for the sync client
-	makeSyncer := (*ssa.Function)(nil)
-	for _, f := range c.Funcs(dagsyncPkg) {
-		if len(c.Calls(f.SSA, Call("ipnisync.Sync).NewSyncer"))) > 0 {
-			makeSyncer = f.SSA
-		}
-	}
-	if makeSyncer == nil {
-		c.Unk("C03.V4-expected-id-present", "dagsync › sync-client factory", token.NoPos, "no function calls Sync.NewSyncer")
-		return
-	}
 	getHeadCallers := 0
 	for _, f := range c.Funcs(dagsyncPkg) {
 		for _, cs := range c.Calls(f.SSA, Any()) {
@@ -1204,6 +1210,9 @@ func c03ExpectedID(c *Ctx) {
 	if getHeadCallers == 0 {
 		c.Unk("C03.V4-expected-id-present", "dagsync › head-querying entry point", token.NoPos, "no function both builds a sync client and queries the head")
 	}
+}
+
+func c03ExpectedIDInFactory(c *Ctx, makeSyncer *ssa.Function) {
 	// V4.3: the factory hands NewSyncer its parameter or a literal with the parameter's ID
 	for _, cs := range c.Calls(makeSyncer, Call("ipnisync.Sync).NewSyncer")) {
 		arg := cs.X.Args[1]
@@ -1425,4 +1434,140 @@ func c03SyncGated(c *Ctx) {
 		}
 	}
 	c.Floor("C03.V6-sync-gated-by-head", 1)
+}
+
+// c03ExpectedIDAtFactory decides V4 at the calls of the sync-client factory
+// made on behalf of a head query, when cleaning the peer info and building the
+// client are one routine: the ID handed to the factory (followed through the
+// local peer-info struct) is tested non-empty before the call, and every
+// value it can take is the caller's ID — through ID-preserving transformers
+// only — or a value adopted on an edge that says the ID so far was empty.
+func c03ExpectedIDAtFactory(c *Ctx) {
+	var factory *ssa.Function
+	for _, f := range c.Funcs(dagsyncPkg) {
+		if len(c.Calls(f.SSA, Call("ipnisync.Sync).NewSyncer"))) > 0 {
+			factory = f.SSA
+		}
+	}
+	if factory == nil {
+		c.Unk("C03.V4-expected-id-present", "dagsync › sync-client factory", token.NoPos, "no function calls Sync.NewSyncer")
+		return
+	}
+	queriesHead := func(fn *ssa.Function) bool {
+		if len(c.Calls(fn, Invoke("dagsync.Syncer.GetHead"))) > 0 {
+			return true
+		}
+		if sites, known := c.staticCallSites(fn); known {
+			for _, s := range sites {
+				if len(c.Calls(topFunc(s.Parent()), Invoke("dagsync.Syncer.GetHead"))) > 0 {
+					return true
+				}
+			}
+		}
+		return false
+	}
+	n := 0
+	for _, f := range c.Funcs(dagsyncPkg) {
+		for _, cs := range c.Calls(f.SSA, Any()) {
+			if cs.In.Common().StaticCallee() != factory || cs.Fn != f.SSA || !queriesHead(f.SSA) {
+				continue
+			}
+			n++
+			k := f.Name + " › sync client for a head query"
+			arg := cs.X.Args[1]
+			id := c.throughCell(&X{Op: "field", Name: "ID", Args: []*X{arg}}, cs.In, nil)
+			_, nonEmpty := c.Guarded(cs.In, Bin("==", Is(id), Const(`""`)), false)
+			c.Check(nonEmpty, "C03.V4-expected-id-present", k+" › ID tested non-empty", cs.In.Pos(), "the factory call is dominated by ID != \"\" for the ID it is given", "a sync client can be built with an empty expected ID ("+abbreviate(id.String())+"): the signer check in the head query is then skipped")
+			// the values the ID can take
+			var pinfo *ssa.Parameter
+			for _, p := range f.SSA.Params {
+				if strings.HasSuffix(p.Type().String(), "peer.AddrInfo") {
+					pinfo = p
+				}
+			}
+			if pinfo == nil {
+				c.Unk("C03.V4-expected-id-present", k+" › ID is the caller's", cs.In.Pos(), "no AddrInfo parameter")
+				continue
+			}
+			callerID := func(x *X) bool {
+				x = strip(x)
+				if x == nil || x.Op != "field" || x.Name != "ID" {
+					return false
+				}
+				b := strip(x.Args[0])
+				for d := 0; d < 4 && b != nil; d++ {
+					if b.V == ssa.Value(pinfo) || ParamLike()(b, nil) {
+						return true
+					}
+					if r := c.ReachingStore(b, cs.In); r != nil && r != b {
+						b = strip(r)
+						continue
+					}
+					// an ID-preserving transformer applied to it
+					if b.Op == "extract" {
+						b = strip(b.Args[0])
+					}
+					if call, ok := b.V.(*ssa.Call); ok && b.Op == "call" && call.Call.StaticCallee() != nil && len(b.Args) >= 1 {
+						if ok, _ := preservesPeerID(c, call.Call.StaticCallee()); ok {
+							b = strip(b.Args[len(b.Args)-1])
+							continue
+						}
+					}
+					return false
+				}
+				return false
+			}
+			phis := map[ssa.Value]bool{}
+			id.Find(func(y *X) bool {
+				if _, ok := y.V.(*ssa.Phi); ok {
+					phis[y.V] = true
+				}
+				return false
+			})
+			okVals, why := true, ""
+			for _, l := range c.LeavesF(id, cs.In) {
+				if callerID(l.Val) {
+					continue
+				}
+				if lv := strip(l.Val); lv != nil && lv.Op == "const" && lv.Name == `""` {
+					continue // cannot reach the factory: the ID is tested non-empty before it
+				}
+				adopted := false
+				for _, fct := range l.Facts {
+					if !fct.Val {
+						continue
+					}
+					if b, m := Match(Bin("==", Bind("v"), Const(`""`)), fct.Cond); m {
+						v := strip(b["v"])
+						if callerID(v) {
+							adopted = true
+						}
+						if v.V != nil && phis[v.V] {
+							// "the ID so far": starts as the caller's ID (not as a constant), so that its being
+							// empty says the caller gave none
+							hasCaller, hasConst := false, false
+							for _, vl := range c.LeavesF(v, cs.In) {
+								if callerID(vl.Val) {
+									hasCaller = true
+								}
+								if t := strip(vl.Val); t != nil && (t.Op == "const" || t.Op == "nil") {
+									hasConst = true
+								}
+							}
+							if hasCaller && !hasConst {
+								adopted = true
+							}
+						}
+					}
+				}
+				if !adopted {
+					okVals, why = false, abbreviate(l.Val.String())
+				}
+			}
+			c.Check(okVals, "C03.V4-expected-id-present", k+" › ID is the caller's", cs.In.Pos(), "the ID is the caller's (through ID-preserving steps), another one only where it was empty so far", "the expected publisher ID can be replaced by another value ("+why+") although the caller gave one: a head signed by that other identity is accepted")
+		}
+	}
+	if n == 0 {
+		c.Unk("C03.V4-expected-id-present", "dagsync › sync client for a head query", token.NoPos, "no factory call on behalf of a head query found")
+	}
 }
